@@ -1,5 +1,5 @@
 reg("C20", "point-in-polygon decisions and polygon selections vs exact geometry",
-    parts=[dict(harness="c20_polygon", cases=dict(quick=6000, thorough=100000), timeout_case=20)],
+    parts=[dict(harness="c20_polygon", cases=dict(quick=6000, thorough=100000), timeout_case=30)],
     rule="case = polygon(s) + queries from the case PRNG. Polygon vertices on an even integer lattice, query points on the "
          "integer lattice (half-lattice); integer k is given to the library as h*(k+offset), h = 2^-4..2^2, offsets up to "
          "2^20, so both the exact integer oracle (harness/common/ref_poly.hpp: winding number + on-segment test in int64) "
@@ -17,12 +17,14 @@ reg("C20", "point-in-polygon decisions and polygon selections vs exact geometry"
          "flag_period (+-360), selection compared with the library's own point test and with the exact truth; "
          "dbPolygonDistance(polin=+-1). hull (15%): Polygons::createFromDb = exact convex hull of the active samples "
          "(lattice boxes, discs, crosses, triangles, bands, duplicates), contains all its samples; "
-         "Db::addSelectionFromDbByConvexHull on a grid, dilation checked by a two-sided bound. distinct = distinct "
+         "Db::addSelectionFromDbByConvexHull on a grid, dilation checked by a two-sided bound. Small-scale strata (6% of "
+         "single and hull cases): half-unit 2^-20..2^-12, i.e. polygons / data sets of extent 1e-5..1e-2 (the hull "
+         "construction is first tried in a forked child with a 10 s limit there). distinct = distinct "
          "(kind, generator, transform, closed/open, orientation, size class, h, offset, options) signatures",
-    require=dict(distinct=300,
-                 oracles=dict(quick={"polygons-inside": 100000, "polyelem-inside": 50000, "set-union": 20000,
-                                     "set-nested": 20000, "db-exact": 100000, "db-vs-test": 100000, "hull-select": 50000,
-                                     "hull-exact": 50},
+    require=dict(distinct=1200,
+                 oracles=dict(quick={"polygons-inside": 400000, "polyelem-inside": 200000, "set-union": 100000,
+                                     "set-nested": 100000, "db-exact": 600000, "db-vs-test": 600000, "hull-select": 250000,
+                                     "hull-exact": 200},
                               thorough={"polygons-inside": 8000000, "polyelem-inside": 4000000, "set-union": 1500000,
                                         "db-exact": 5000000, "hull-exact": 1500})),
     assumptions=["the union / odd-count rules and the vertical test are the ones written above Polygons::inside",
